@@ -1908,7 +1908,7 @@ impl fmt::Display for Expr {
 }
 
 /// Coerce numeric types for binary operations
-fn coerce_numeric_types(left: &ArrowDataType, right: &ArrowDataType) -> ArrowDataType {
+pub(crate) fn coerce_numeric_types(left: &ArrowDataType, right: &ArrowDataType) -> ArrowDataType {
     use ArrowDataType::*;
 
     match (left, right) {
